@@ -323,11 +323,11 @@ Tensordot(a, b, k, mode, ow) ==
 
 \* contraction of a boundary rank with an integer matrix
 MatFill(seed, m, n) == [i \in 1..m |-> [j \in 1..n |-> <<(Hash(seed, 1, i, j, i + j, 2) - 3), 0>>]]
-RankTensordot(a, n, mode, seed, ow) ==
+RankTensordotM(a, M, mode, ow) ==
     /\ "RankTensordot" \in Ops /\ Exact(pool[a])
+    /\ (IF mode = "last" THEN Len(M) = pool[a].d.rN ELSE Len(M[1]) = pool[a].d.r0)
     /\ LET x == pool[a].d
-           M == IF mode = "last" THEN MatFill(seed, x.rN, n) ELSE MatFill(seed, n, x.r0)
-           R == Prod(x.rd) * Prod(x.cd)
+           n == IF mode = "last" THEN Len(M[1]) ELSE Len(M)
            dn == IF mode = "last"
                  THEN MkG(x.rd, x.cd, x.r0, n, LAMBDA p, I, J, q :
                         CSumTo([t \in 1..x.rN |-> CMul(AtG(x, p, I, J, t - 1), M[t][q + 1])], x.rN))
@@ -338,6 +338,8 @@ RankTensordot(a, n, mode, seed, ow) ==
                      ELSE IF t = Len(pool[a].rk) /\ mode = "last" THEN n ELSE pool[a].rk[t]]
            ev == [op |-> "RankTensordot", a |-> a, matrix |-> M, mode |-> mode, ow |-> ow]
        IN  IF ow THEN Step(ev, <<>>, <<<<a, Obj(dn, rk2)>>>>) ELSE Step(ev, <<Obj(dn, rk2)>>, <<>>)
+RankTensordot(a, n, mode, seed, ow) ==
+    RankTensordotM(a, IF mode = "last" THEN MatFill(seed, pool[a].d.rN, n) ELSE MatFill(seed, n, pool[a].d.r0), mode, ow)
 
 \* concatenation; form "tt": other is a TT, "list": other's list of cores
 DConcatG(x, y) ==
